@@ -686,7 +686,6 @@ func TestC09(t *testing.T) {
 	rep.Sample(map[string]any{"intact": c09Cfg{lats[4], "veto-host", true, axs[1], bxs[3]}.String(), "cut": "request cut at byte 41 then stall; reply cut at byte 7 then close"})
 }
 
-
 // runC09HostileHost: the harness answers a real initiator's Join with a crafted
 // reply. A veto of the initiator's merge delegate must hold whatever the reply
 // header claims (Join flag false/true), and a malformed / incompatible reply
